@@ -13,7 +13,8 @@ CONSTANTS
   Atomic = TRUE
   CallbacksUnderQueueLock = FALSE
   CountCooldowns = TRUE
+  FreshChannelOnWake = FALSE
 VIEW view
 ACTION_CONSTRAINT EdgeOut
-INVARIANTS TypeOK CountExact ListStatusConsistent HasPeerExact OnlyActiveOffered NoEarlyReturn
+INVARIANTS TypeOK CountExact ListStatusConsistent HasPeerExact NoSleepingWaiter OnlyActiveOffered NoEarlyReturn
   CooldownNotLost QueueTimerLive CooldownsExact SlotsSuffice SingleTimer
